@@ -15,6 +15,9 @@ grep -q test_phf "$D/meta.json" 2>/dev/null && FEAT="--features test_phf"
 # a demonstration that only fails in a release build says so in its meta.json
 REL=""
 grep -q -- "--release" "$D/meta.json" 2>/dev/null && REL="--release"
+# a demonstration crate that needs one of its own features says so in its meta.json
+DFEAT=""
+grep -q -- "cargo build --offline --features std" "$D/meta.json" 2>/dev/null && DFEAT="--features std"
 DEMODIR=""
 [ -d "$D/demo_crate" ] && DEMODIR="$D/demo_crate"
 [ -d "$D/demo" ] && DEMODIR="$D/demo"
@@ -27,13 +30,13 @@ run_demo() {
   fi
   if [ -n "$DEMODIR" ]; then
     rm -rf $WT/demo_x && cp -r "$DEMODIR" $WT/demo_x && rm -rf $WT/demo_x/target $WT/demo_x/Cargo.lock
-    sed -i -E "s#/tmp/mut/C[0-9]+/#$WT/#g" $WT/demo_x/Cargo.toml
+    find $WT/demo_x -name Cargo.toml -exec sed -i -E "s#/tmp/mut/C[0-9]+/#$WT/#g" {} +
     cp /repo/Cargo.lock $WT/demo_x/Cargo.lock 2>/dev/null
     if [ -f $WT/demo_x/run.sh ]; then
       (cd $WT/demo_x && sed -i -E "s#/tmp/mut/C[0-9]+/#$WT/#g" run.sh && CARGO_TARGET_DIR=$WT/target/demo_x timeout 900 sh run.sh >$WT.demo.log 2>&1); r=$?
       tail -2 $WT.demo.log
     else
-      (cd $WT/demo_x && CARGO_TARGET_DIR=$WT/target/demo_x timeout 900 cargo build --offline $REL >$WT.demo.log 2>&1); r=$?
+      (cd $WT/demo_x && CARGO_TARGET_DIR=$WT/target/demo_x timeout 900 cargo build --offline $REL $DFEAT >$WT.demo.log 2>&1); r=$?
     fi
     rm -rf $WT/demo_x
     return $r
